@@ -10,6 +10,12 @@ ENTRIES = {
  "C01": dict(cat="exploration", engine="sweep", tech=TECH_SWEEP,
   text="Bounded exhaustive exploration of the real Curve2/Curve3 station code: every lattice vertex sequence up to the length bound x closure x scale x tolerance, every critical arc length (incl. +-1 ulp), compared with a linear-scan reference model. No execution in the enumerated space violates the property.",
   note="Small-scope hypothesis (local index/branch rules fail on small instances); tolerances 1e-9*extent / 16 ulp of L; direction at exactly reversing vertices is undefined by the statement and counted as gray."),
+ "C04": dict(cat="model_checking", engine="bfs", tech=TECH_BFS,
+  text="Explicit-state breadth-first search over curves reachable by <= 3 portion/split/trim/reverse operations from every small lattice curve; every transition calls the real method and is compared with the arc-length reference piece; portion-of-portion is compared with the direct portion (history vs from-scratch).",
+  note="Bounded depth and root size; pieces compared within 4*tol (the curve constructor merges vertices within tol at each end); requests inside the tolerance band are gray; tolerance-scale pieces are judged but not expanded."),
+ "C05": dict(cat="exploration", engine="sweep", tech=TECH_SWEEP,
+  text="Every lattice curve up to the length bound (2D open/closed, 3D) x scales straddling one unit of length x the full request menu for resample (count, spacing, max spacing), simplify, RDP and fill_gaps, judged against the arc-length point function and brute-force segment distances.",
+  note="Resampling clauses judged on simple (non self-overlapping) sources only, where span and spacing are well defined; degenerate requests on closed curves may be rejected (gray)."),
 }
 
 NOT_YET = "check under construction (will be claimed once its exhaustive exploration is implemented)"
